@@ -1982,6 +1982,28 @@ func genC19(c *Ctx) {
 			c19Emit(c, "sigform", b.bytes(), truth)
 		}
 	}
+	// every public-key algorithm octet and every hash octet in a version 3 and in a version 4 signature packet,
+	// always (not sampled): an algorithm the reader lets through without knowing its values must not crash it
+	for a := 0; a < 256; a++ {
+		s3 := randSig(r, true)
+		b3 := s3.body()
+		b3[15] = byte(a)
+		c19EmitSig(c, "v3-every-algorithm", wrapPacket(a%7, 2, b3, r))
+		s4 := randSig(r, false)
+		b4 := s4.body()
+		b4[2] = byte(a)
+		c19EmitSig(c, "v4-every-algorithm", wrapPacket(a%7, 2, b4, r))
+		if a < 32 || a >= 100 && a < 111 {
+			h3 := randSig(r, true)
+			bh := h3.body()
+			bh[16] = byte(a)
+			c19EmitSig(c, "v3-every-hash", wrapPacket(a%7, 2, bh, r))
+			h4 := randSig(r, false)
+			bh4 := h4.body()
+			bh4[3] = byte(a)
+			c19EmitSig(c, "v4-every-hash", wrapPacket(a%7, 2, bh4, r))
+		}
+	}
 	// v3 signatures in every header form; unsupported versions, algorithms and hashes; non-signature packets
 	for i := 0; i < nSig/2; i++ {
 		s := randSig(r, true)
